@@ -247,7 +247,7 @@ def guard_atoms(P, fn):
                 for c in walk(x[2][1]):
                     if c[0] == "closure" and c[1] in P.fns:
                         for (atom, o) in _closure_truth(P, P.fns[c[1]]):
-                            truths.append((subst_captures(atom, c[2] if len(c) > 2 and isinstance(c[2], tuple) else ()), o))
+                            truths.append((subst_item(subst_captures(atom, c[2] if len(c) > 2 and isinstance(c[2], tuple) else ()), x[2][0]), o))
         if not truths:
             continue
         for b in fn.live_blocks():
@@ -259,6 +259,16 @@ def guard_atoms(P, fn):
                         for (a2, o2) in equivalent_forms(a, o):
                             out.append(((b, tgt), a2, o2))
     return out
+
+
+def subst_item(e, base):
+    """the closure's item parameter replaced by `an item of <the iterator the adaptor is applied to>`, so that a rule can
+    see what the tested value ranges over"""
+    if not isinstance(e, tuple):
+        return e
+    if e == ("param", 2):
+        return ("iteritem", base)
+    return tuple(subst_item(x, base) for x in e)
 
 
 def subst_captures(e, ops):
@@ -288,7 +298,7 @@ def filter_guard_edges(P, fn, pred):
                 for c in walk(x[2][1]):
                     if c[0] == "closure" and c[1] in P.fns:
                         for (atom, o) in _closure_truth(P, P.fns[c[1]]):
-                            atom = subst_captures(atom, c[2] if len(c) > 2 and isinstance(c[2], tuple) else ())
+                            atom = subst_item(subst_captures(atom, c[2] if len(c) > 2 and isinstance(c[2], tuple) else ()), x[2][0])
                             for (a2, o2) in equivalent_forms(atom, o):
                                 try:
                                     if pred(a2, o2, nb):
